@@ -237,6 +237,8 @@ def build(tier, ctx):
     rep += fragment.corpus_multiple_same(ctx["repo"])
     rep += [("FC", d) for d in
             fragment.branch_count_family(full=(tier == "thorough"))]
+    rep += [("FD", d) for d in fragment.kill_in_loop_family()]
+    rep += [("FS", d) for d in fragment.staged_merge_family()]
     defsA += rep
     for i in range(0, len(defsA), 4):
         tasks.append({"kind": "A", "tier": tier,
